@@ -9,6 +9,14 @@ checks = {
    technique="stateless exhaustive enumeration of map-iteration orders (deviation-bounded DFS over instrumented `range <map>` sites) of the real transaction code, per generated (rule program, request) scenario; oracle = a single outcome per scenario",
    text="Every (program, request) scenario of a generated family is executed on the real engine under every map-iteration order within the deviation bound; interruption, fired rules, per-rule match multisets and TX counters must coincide over all executions. This is the adversarial-scheduler reading of the property: Go's map order is owned by the explorer instead of being sampled by repetition.",
    note="Trusted: the instrumenter redirects every `range` over a map in the coraza module (sites listed in the build's sites.txt); map order and pool reuse are assumed to be the only runtime nondeterminism on the transaction path. Bounded: 2 (quick) / 3 (thorough) order deviations from sorted order, rule programs of <=2 rules over the listed alphabets."),
+ "C01": dict(level="exploration", design="§3 C01", engine="mc+secmodel",
+   technique="exhaustive enumeration of (rule program, request) pairs over a stated alphabet executed on the real engine and compared with a reference interpreter (secmodel); thorough additionally enumerates map-iteration orders (deviation bound 1)",
+   text="All single-rule programs over 8 collections x 7 selector forms x 4 exclusions x 3 transformation lists x 5 operators x negation x multiMatch x 2 phases, plus two-rule and chained programs, against every request of <=2 (name,value) pairs over a small adversarial alphabet (case variants, empty, leading blank, non-UTF-8): fired rules in order and the multiset of (variable,key,value) must equal the model's. Exhaustive within the alphabet, so a missed or phantom match for any combination in it cannot hide.",
+   note="Trusted: secmodel (≈350 lines) as the restatement of the property; cases where the documentation is silent are skipped and counted (skipped_unspecified). Outside the alphabet: other operators/transformations (C14/C15), response phases, XML/JSON targets."),
+ "C12": dict(level="exploration", design="§3 C12", engine="mc",
+   technique="exhaustive enumeration of 2-3 rule programs with shared/prefix/disjoint transformation lists x requests x map orders on the real engine; differential oracle against the same program with per-rule identity transformations (no cache sharing possible) replayed under the same map order",
+   text="For every program of the family and every request, under every map order within the bound and on a recycled transaction object, the fired rules and transformed values must equal those of the reference program whose rules cannot share transformation-cache entries. No hand-written expectation is involved.",
+   note="Trusted: distinct identity transformations registered through the plugin API give every rule a distinct transformation-chain id. Bounded: 6 transformation lists, 10 target kinds, 5 requests, deviation bound 1 (quick) / 2 (thorough)."),
 }
 not_applicable = {}
 
